@@ -45,7 +45,7 @@ TYPED = (
     "TRIGGER;RELATED=END:PT5M", "TRIGGER;VALUE=DATE-TIME:20240301T083000Z", "PRIORITY:5", "SEQUENCE:0", "PERCENT-COMPLETE:100",
     "TZOFFSETFROM:+0100", "TZOFFSETTO:-0530", "TZOFFSETTO:+054530", "URL:http://example.com/a?b=c,d;e", "ORGANIZER;CN=Max:mailto:max@example.com",
     "ATTACH;ENCODING=BASE64;VALUE=BINARY:AAECAw==", "DTSTAMP:20240301T083000Z", "CREATED:20240301T083000Z", "COMPLETED:20240301T083000Z",
-    "SUMMARY:\u00a0edge blanks\u2003", "X-A;P=\u00a0v\u00a0:\u00a0", "DESCRIPTION;ALTREP=\"\u00a0x\":\tTabbed\t", "COMMENT:e\u0301 combining \ufeff",
+    "SUMMARY:\u00a0edge blanks\u2003", "X-A;P=\u00a0v\u00a0:\u00a0", "DESCRIPTION;ALTREP=\"\u00a0x\":\tTabbed\t", "COMMENT:e\u0301 combining \ufeff", "SUMMARY:\ufeffstarts with U+FEFF", "URL:\ufeffhttp://x",
     "REQUEST-STATUS:2.0\\;Success", "CLASS:PUBLIC", "UNKNOWN-IANA-PROP;X=1:some text", "X-EMPTY:", "ACKNOWLEDGED:20240301T083000Z",
 )
 MENU40 = (
